@@ -61,3 +61,28 @@ package transform
 //@   ensures result1 == nil ==> tvalid(result0) && tname(result0) == upper(name)             #type-of-name-any-case
 //@   ensures result1 != nil ==> (forall t uint64 :: tvalid(t) ==> tname(t) != upper(name))   #rejects-only-unknown
 //@   modifies nothing
+
+//@ -- ------------------------------------------------------------------ transform pieces in reach (C13)
+//@ -- ZRLT.Forward: in bounds for every block (no index fault), output within the advertised
+//@ -- size MaxEncodedLen(len(src)) == len(src) on success, input never written (clean decline).
+//@ func (*ZRLT) MaxEncodedLen
+//@   mode int
+//@   props C13
+//@   ensures result == srcLen                                                                            #advertised-size
+//@   modifies nothing
+
+//@ func (*ZRLT) Forward
+//@   mode int
+//@   props C13
+//@   requires len(src) <= 1073741824 && !samearray(src, dst)
+//@   ensures result2 == nil && len(dst) > 0 ==> result0 == len(src) && result1 <= len(src)               #success-within-advertised-size
+//@   ensures result0 <= len(src) && result1 <= len(dst)                                                  #counts-within-buffers
+//@   modifies dst[*]
+//@   loop 1 invariant 0 <= srcIdx && srcIdx <= srcEnd && 0 <= dstIdx && dstIdx <= dstEnd && srcEnd == len(src) && dstEnd == len(src) && len(src) <= len(dst) && len(src) >= 1
+//@   loop 1 decreases srcEnd - srcIdx
+//@   loop 2 invariant 1 <= srcIdx && srcIdx <= srcEnd && (runStart == 18446744073709551615 || runStart < srcIdx) && 0 <= dstIdx && dstIdx <= dstEnd && srcEnd == len(src) && dstEnd == len(src) && len(src) <= len(dst)
+//@   loop 2 decreases srcEnd - srcIdx
+//@   loop 3 invariant 1 <= srcIdx && srcIdx <= srcEnd && (runStart == 18446744073709551615 || runStart < srcIdx) && 0 <= dstIdx && dstIdx <= dstEnd && srcEnd == len(src) && dstEnd == len(src) && len(src) <= len(dst)
+//@   loop 3 decreases srcEnd - srcIdx
+//@   loop 4 invariant 0 <= log2 && 0 <= dstIdx && dstIdx + log2 < dstEnd && 1 <= srcIdx && srcIdx <= srcEnd && srcEnd == len(src) && dstEnd == len(src) && len(src) <= len(dst)
+//@   loop 4 decreases log2
